@@ -418,20 +418,36 @@ func (env *SpecEnv) field(v *Val, name string) *Val {
 }
 
 func (env *SpecEnv) pkgConst(pkgName, name string) *Val {
-	var found *Val
-	for _, p := range env.x.prog.SSA.AllPackages() {
-		if p.Pkg.Name() != pkgName {
-			continue
-		}
-		if env.pkg != nil && !importsOrIs(env.pkg, p.Pkg) {
-			continue
-		}
-		if obj := p.Pkg.Scope().Lookup(name); obj != nil {
-			if c, ok := obj.(*types.Const); ok {
-				found = env.constVal(c)
-				break
+	// resolve the qualifier like the package's own source does: import alias or package name
+	var cands []*types.Package
+	if env.pkg != nil {
+		if path, ok := env.x.prog.importPath(env.pkg.Path(), pkgName); ok {
+			for _, imp := range env.pkg.Imports() {
+				if imp.Path() == path {
+					cands = append(cands, imp)
+				}
 			}
 		}
+	}
+	if len(cands) == 0 {
+		for _, p := range env.x.prog.SSA.AllPackages() {
+			if p.Pkg.Name() == pkgName && (env.pkg == nil || importsOrIs(env.pkg, p.Pkg)) {
+				cands = append(cands, p.Pkg)
+			}
+		}
+	}
+	var found *Val
+	n := 0
+	for _, p := range cands {
+		if obj := p.Scope().Lookup(name); obj != nil {
+			if c, ok := obj.(*types.Const); ok {
+				found = env.constVal(c)
+				n++
+			}
+		}
+	}
+	if n > 1 {
+		env.failf("ambiguous constant %s.%s (use the import alias of the source file)", pkgName, name)
 	}
 	return found
 }
